@@ -1,9 +1,14 @@
 """Replay dispatch: name of a bounded stand-in -> function(input) -> (ok, text)."""
-from . import rules
+from . import rules, builders, invariance
 
 RERUN = {
     "C01.verdict-vs-documented-semantics": rules.rerun_verdict,
     "C03.reported-violations-vs-reference-set": rules.rerun_verdict,
     "C12.algebra-laws-on-real-outcomes": rules.rerun_algebra,
     "C11.regex-and-batch-equal-expansion": rules.rerun_expansion,
+    "C13.rule-call-chains-vs-specification-automaton": builders.rerun_c13,
+    "C13.absent-module-names-never-give-a-verdict": builders.rerun_c13,
+    "C16.layer-builder-sequences-vs-specification-automaton": builders.rerun_c16,
+    "C14.verdicts-and-messages-invariant-under-component-renaming": invariance.rerun_renaming,
+    "C15.purity-history-order-seed-independence": invariance.rerun_purity,
 }
